@@ -37,7 +37,7 @@ def plan(tier, seed):
 
 def build_input(rng, cands):
     k = rng.choice([1, 2, 2, 3])
-    st = streams.build(rng, cands, k=k, n_each=(8, 40), tagged=(k > 1 or rng.random() < 0.3))
+    st = streams.build(rng, cands, k=k, n_each=(8, 40), tagged=(k > 1 or rng.random() < 0.3), opts={'titles': rng.choice([0.02, 0.12])})
     items = []      # [('msg', entry) | ('chat', text)]
     msg_lines = [e['line'] for e in st['entries']]
     for e in st['entries']:
